@@ -640,11 +640,16 @@ class DocRunner:
                 c["actions"] += self.actions_of(c, kind, nm, ql, ans)
             start = len(e_lines)
             e_lines += c["lines"]
+            c["ilocs_at"] = len(e_lines)
+            e_lines.append(f"ilocs {hexs(c['doc'])}")
             for a in c["actions"]:
                 if a.get("spliced") is not None:
                     a["eval_at"] = len(e_lines)
                     e_lines.append(f"eval Doc {hexs(a['spliced'])}")
+                    a["ilocs_at"] = len(e_lines)
+                    e_lines.append(f"ilocs {hexs(a['spliced'])}")
         e_out = self.harness(e_lines) if e_lines else []
+        self.tie_auto_import(cases, e_out, label)
         # verdicts
         for c in cases:
             self.stats["cases"] += 1
@@ -659,6 +664,39 @@ class DocRunner:
                 self.fail(c, None, ["server's text of the document differs from the last update"], label)
                 continue
             self.verdict_case(c, e_out, label, probe_of)
+
+    def tie_auto_import(self, cases, e_out, label):
+        """Model `autoImportEdits` (Lean) vs the real quick-fix / completion edits: same ranges, same text."""
+        dl, keep = [], []
+        for c in cases:
+            if not c.get("state_ok") or c.get("ilocs_at") is None:
+                continue
+            base = parse_ilocs(c["doc"], e_out[c["ilocs_at"]])
+            if base is None:
+                continue
+            for a in c["actions"]:
+                if a.get("ilocs_at") is None or not a.get("raw_edits"):
+                    continue
+                after = parse_ilocs(a["spliced"], e_out[a["ilocs_at"]])
+                if not after or len(after) != len(base) + 1:
+                    continue          # the property oracle reports such a case
+                locs = ";".join(e[0] for e in base) or "-"
+                n = len(base)
+                dl.append(f"aimp {locs} {fmt_list(list(range(1, n + 1)))} {n + 1} {n + 1}={after[-1][1]}")
+                keep.append((c, a))
+        if not dl:
+            return
+        rc, mo, err = common.run_exec(common.driver_bin(PROP), [], dl)
+        for (c, a), line, m in zip(keep, dl, mo + ["<missing>"] * len(dl)):
+            self.stats["tie_aimp"] += 1
+            if m == a["raw_edits"]:
+                self.stats["tie_aimp_ok"] += 1
+            elif len(self.ctx.violations) < 3:
+                self.ctx.violation("model/implementation disagreement on protocol aimp (generate_auto_import_edits)",
+                                   {"protocol": "aimp", "label": label, "doc": c["doc"], "query": a["query"], "impl": a["raw_edits"],
+                                    "model": m, "ops": c["lines"] + [a["query"]], "model_op": line,
+                                    "broken": "correspondence `aimp` (Model/DifferText.lean autoImportEdits vs lib.rs generate_auto_import_edits): theorem auto_import_text no longer speaks about this code"},
+                                   no_input=True)
 
     def actions_of(self, c, kind, nm, ql, ans):
         acts = []
@@ -765,8 +803,7 @@ def shrink_case(runner, c, a, bad):
         c2 = {"lines": ["new"] + [l for l in c["lines"] if l.startswith("src ") and not l.startswith("src Doc ")] +
                        [f"src Doc {hexs(doc)}", "init"], "doc": doc, "need": c["need"], "exporters": c["exporters"],
               "meta": dict(c["meta"], history="none")}
-        st = {"cases": 0, "history": {}, "imports_hist": {}, "state_panics": 0, "actions": 0, "action_kinds": {},
-              "actions_ok": 0, "distinct_actions": set(), "doc_samples": [], "known_hits": 0}
+        st = new_stats()
         hits = []
         r2 = DocRunner(runner.ctx, st)
         r2.fail = lambda cc, aa, bb, ll, pp=None: hits.append(bb)
@@ -907,6 +944,92 @@ def check_mdiffs(ctx, runner, pairs, label, stats):
 
 
 # ----------------------------------------------------------------------------------------------
+# part 4: tie of the text-level model (Model/DifferText.lean: importEdits / autoImportEdits) to
+# `wrapped_list_diff` + `to_edit` + `generate_auto_import_edits`, through `mdiff` / real quick fixes
+# ----------------------------------------------------------------------------------------------
+
+MD_IMPORTS_1L = [x for x in MD_IMPORTS if "\n" not in x] + ["import {Qux} from lib.B", "import { Bar, Foo } from A"]
+
+
+def gen_import_pair(rng):
+    """Two module texts with identical toplevels at identical lines and different import lists
+    (one import or a blank line per slot, all single-line)."""
+    n = rng.range(0, 5)
+    old = [rng.pick(MD_IMPORTS_1L) if rng.chance(3, 4) else None for _ in range(n)]
+    new = list(old)
+    for _ in range(rng.range(1, 3)):
+        k = rng.below(3)
+        if k == 0 or not new:
+            new.append(rng.pick(MD_IMPORTS_1L))
+        else:
+            i = rng.below(len(new))
+            new[i] = None if k == 1 else rng.pick(MD_IMPORTS_1L)
+    width = max(len(old), len(new))
+    tops = "\n".join(rng.pick(MD_TOPS[:5]) for _ in range(rng.range(0, 2)))
+    def render(xs):
+        # a ';'-less import must not be followed directly by another item on the same line: one per line
+        return "".join((x or "") + "\n" for x in xs) + "\n" * (width - len(xs)) + tops + "\n"
+    return render(old), render(new)
+
+
+def parse_ilocs(text, ans):
+    """-> list of (loc 'l:c-l:c', rendered hex, raw source substring) or None."""
+    if ans in ("skip",) or ans.startswith(("panic:", "<")):
+        return None
+    if ans == "-":
+        return []
+    tb = text.encode(); starts = line_starts(tb)
+    out = []
+    for part in ans.split(","):
+        loc, rendered = part.split("=")
+        m = re.match(r"(\d+):(\d+)-(\d+):(\d+)", loc)
+        a = pos_to_off(tb, starts, int(m.group(1)), int(m.group(2)))
+        b = pos_to_off(tb, starts, int(m.group(3)), int(m.group(4)))
+        if a is None or b is None:
+            return None
+        out.append((loc, rendered, tb[a:b]))
+    return out
+
+
+def check_import_tie(ctx, runner, pairs, label, stats):
+    lines = []
+    for a, b in pairs:
+        lines += [f"mdiff {hexs(a)} {hexs(b)}", f"ilocs {hexs(a)}", f"ilocs {hexs(b)}"]
+    out = runner.harness(lines)
+    dl, keep = [], []
+    for i, (a, b) in enumerate(pairs):
+        real, la, lb = out[3 * i], parse_ilocs(a, out[3 * i + 1]), parse_ilocs(b, out[3 * i + 2])
+        if real == "skip" or la is None or lb is None:
+            continue
+        ids, table = {}, {}
+        def ident(e):
+            k = (e[0], e[2])          # same location and same source text => equal AST nodes
+            if k not in ids:
+                ids[k] = len(ids) + 1
+            table[ids[k]] = e[1]
+            return ids[k]
+        oi, ni = [ident(e) for e in la], [ident(e) for e in lb]
+        locs = ";".join(e[0] for e in la) or "-"
+        tab = ",".join(f"{k}={v}" for k, v in sorted(table.items())) or "-"
+        dl.append(f"iedits {locs} {fmt_list(oi)} {fmt_list(ni)} {tab}")
+        keep.append((a, b, real))
+    if not dl:
+        return
+    rc, mo, err = common.run_exec(common.driver_bin(PROP), [], dl)
+    for (a, b, real), line, m in zip(keep, dl, mo + ["<missing>"] * len(dl)):
+        stats["tie_import_pairs"] += 1
+        if real != m:
+            if len(ctx.violations) < 3:
+                ctx.violation("model/implementation disagreement on protocol iedits (wrapped_list_diff + to_edit for the import list); "
+                              "see also the module-pair oracle", {"protocol": "iedits", "label": label, "old_text": a, "new_text": b,
+                              "impl": real, "model": m, "ops": [line],
+                              "broken": "correspondence `iedits` (Model/DifferText.lean importEdits vs ast_differ.rs:177-425): theorems text_lift / import_edits_text no longer speak about this code"},
+                              no_input=True)
+        else:
+            stats["tie_import_ok"] += 1
+
+
+# ----------------------------------------------------------------------------------------------
 # run
 # ----------------------------------------------------------------------------------------------
 
@@ -914,6 +1037,7 @@ def new_stats():
     return {"diff_lines": 0, "shape": {}, "distinct_pairs": set(), "nontrivial_pairs": 0, "change_kinds": {},
             "samples": [], "cases": 0, "history": {}, "imports_hist": {}, "state_panics": 0, "actions": 0,
             "action_kinds": {}, "actions_ok": 0, "distinct_actions": set(), "doc_samples": [], "known_hits": 0,
+            "tie_import_pairs": 0, "tie_import_ok": 0, "tie_aimp": 0, "tie_aimp_ok": 0,
             "md_pairs": 0, "md_skipped": 0, "md_ok": 0, "md_kinds": {}, "md_nontrivial": set(), "md_samples": []}
 
 
@@ -979,7 +1103,13 @@ def run(ctx):
             batch = [gen_mdiff_pair(rng) for _ in range(min(500, nmd - done))]
             done += len(batch)
             check_mdiffs(ctx, runner, batch, f"generated module pairs seed={ctx.seed}", stats)
-    ev_docs = stats["actions"] + stats["md_pairs"] - stats["md_skipped"]
+        nti = ctx.scale(1500, 30000)
+        done = 0
+        while done < nti and len(ctx.violations) < 1:
+            batch = [gen_import_pair(rng) for _ in range(min(500, nti - done))]
+            done += len(batch)
+            check_import_tie(ctx, runner, batch, f"generated import-list pairs seed={ctx.seed}", stats)
+    ev_docs = stats["actions"] + stats["md_pairs"] - stats["md_skipped"] + stats["tie_import_pairs"]
     ctx.cov.update({
         "evaluations": stats["diff_lines"] + ev_docs,
         "distinct_nontrivial": stats["nontrivial_pairs"] + len(stats["distinct_actions"]) + len(stats["md_nontrivial"]),
@@ -998,7 +1128,9 @@ def run(ctx):
         "module_diff_pairs": stats["md_pairs"], "module_diff_pairs_ok": stats["md_ok"],
         "module_diff_pairs_skipped_invalid": stats["md_skipped"], "module_diff_edit_kind_histogram": stats["md_kinds"],
         "module_diff_pairs_with_2plus_edits": len(stats["md_nontrivial"]),
-        "traces_validated_against_impl": stats["diff_lines"],
+        "traces_validated_against_impl": stats["diff_lines"] + stats["tie_import_ok"] + stats["tie_aimp_ok"],
+        "text_model_import_pairs": stats["tie_import_pairs"], "text_model_import_pairs_equal": stats["tie_import_ok"],
+        "text_model_auto_import_actions": stats["tie_aimp"], "text_model_auto_import_actions_equal": stats["tie_aimp_ok"],
         "diff_pairs": stats["diff_lines"], "distinct_pairs": len(stats["distinct_pairs"]),
         "nontrivial_pairs": stats["nontrivial_pairs"],
         "pair_shape_histogram": stats["shape"], "change_kind_histogram": stats["change_kinds"],
